@@ -8,7 +8,7 @@ use spec::*;
 use vcore::proptest::prelude::*;
 use vcore::Level;
 
-const RULE: &str = "a case is (event: module of 1-3 segments, template of text/hole parts, extent none/point/range incl. empty and inverted ranges, own props over an 8-key alphabet incl. \"\" and \"é\" with frequent duplicates) x (ambient props served by Empty / a list-backed harness Ctxt / the real ThreadLocalCtxt with two entered frames) x (clock none/fixed) x (runtime filter tree) x (optional call-site filter tree) x (destination tree incl. Wrap(from_filter|from_fn prepend), nested Runtime-as-emitter, forwarding leaf = NESTED EMISSION into another runtime with its own destination tree/filter/list ctxt/clock through emit_core::emit | Runtime::emit | <Runtime as Emitter>::emit | emit!(evt:) | emit!(evt:, template) | emit!(mdl/extent/props, template [capturing a]) | debug!/info!/warn!/error!, with or without a call-site when:, at depth 1 and 2; filter leaves that log their decision by such an emission into an audit runtime) x (entry point: emit_core::emit, Runtime::emit, <Runtime as Emitter>::emit, emit::emit! with mdl/extent/props at 4 call sites, emit::emit!(evt:), emit::emit!(evt:, template)) x (generic runtime | AmbientRuntime-shaped runtime of &dyn Erased* references). Trees are recursive enums whose variants hold the real emit combinators (And/Or/Option/Box/Arc/&/dyn Erased*/AssertInternal/Wrap/Runtime) instantiated at the enum itself, depth <=4, <=14 nodes. Every case is run on the tree as generated, on the same tree with every node behind dyn Erased*, and with the other runtime flavour; then the event is emitted straight to the destination and the destination is flushed. Non-trivial = the effective filter tree and the destination tree each contain >=1 composite AND (ambient props non-empty OR a key is duplicated in the full event OR a call-site filter is in effect).";
+const RULE: &str = "a case is (event: module of 1-3 segments, template of text/hole parts, extent none/point/range incl. empty and inverted ranges, own props over an 8-key alphabet incl. \"\" and \"é\" with frequent duplicates) x (ambient props served by Empty / a list-backed harness Ctxt / the real ThreadLocalCtxt with two entered frames) x (clock none/fixed) x (runtime filter tree) x (optional call-site filter tree) x (destination tree incl. Wrap(from_filter|from_fn prepend), nested Runtime-as-emitter, forwarding leaf = NESTED EMISSION into another runtime with its own destination tree/filter/list ctxt/clock through emit_core::emit | Runtime::emit | <Runtime as Emitter>::emit | emit!(evt:) | emit!(evt:, template) | emit!(mdl/extent/props, template [capturing a]) | debug!/info!/warn!/error!, with or without a call-site when:, at depth 1 and 2; filter leaves that log their decision by such an emission into an audit runtime) x (entry point: emit_core::emit, Runtime::emit, <Runtime as Emitter>::emit, emit::emit! with mdl/extent/props at 4 call sites, emit::emit!(evt:), emit::emit!(evt:, template)) x (generic runtime | AmbientRuntime-shaped runtime of &dyn Erased* references) x (thread state of the emission: normal | from a Drop guard running while the thread unwinds from a scripted, caught panic). Trees are recursive enums whose variants hold the real emit combinators (And/Or/Option/Box/Arc/&/dyn Erased*/AssertInternal/Wrap/Runtime) instantiated at the enum itself, depth <=4, <=14 nodes. Every case is run on the tree as generated, on the same tree with every node behind dyn Erased*, and with the other runtime flavour; then the event is emitted straight to the destination and the destination is flushed. Non-trivial = the effective filter tree and the destination tree each contain >=1 composite AND (ambient props non-empty OR a key is duplicated in the full event OR a call-site filter is in effect).";
 
 const ASSUMPTIONS: [&str; 8] = [
     "the oracle is a reference evaluator over the case data (model.rs) written from the property text: model event = own props then ambient props, own extent else the clock's reading; effective filter = call-site filter when given else the runtime's; And=both, Or=either, Option None=pass everything / deliver nothing, Wrap(from_filter g)=inner iff g accepts the event at that position, nested Runtime used as an emitter applies its own clock, ctxt, filter in that order (Runtime::emit rustdoc), every other wrapper is transparent",
@@ -305,6 +305,10 @@ fn ev_s() -> impl Strategy<Value = EvSpec> {
         .prop_map(|(mdl, tpl, extent, props)| EvSpec { mdl, tpl, extent, props })
 }
 
+fn state_s() -> impl Strategy<Value = ThreadState> {
+    prop_oneof![13 => Just(ThreadState::Normal), 7 => Just(ThreadState::Unwinding)]
+}
+
 fn entry_s() -> impl Strategy<Value = Entry> {
     prop_oneof![
         2 => Just(Entry::Core),
@@ -418,9 +422,9 @@ fn base_case_s() -> impl Strategy<Value = Case> {
         prop::option::weighted(0.6, fs_s(3, 8)),
         es_s(),
         entry_s(),
-        (any::<bool>(), -1i64..=2, 0u8..5, any::<bool>()),
+        (any::<bool>(), -1i64..=2, 0u8..5, any::<bool>(), state_s()),
     )
-        .prop_map(|((evt, ambient, ctxt), clock, filter, when, dest, entry, (erased_rt, macro_a, macro_b, by_value))| Case {
+        .prop_map(|((evt, ambient, ctxt), clock, filter, when, dest, entry, (erased_rt, macro_a, macro_b, by_value, state))| Case {
             evt,
             ambient,
             ctxt,
@@ -433,6 +437,7 @@ fn base_case_s() -> impl Strategy<Value = Case> {
             macro_a,
             macro_b,
             by_value,
+            state,
         })
 }
 
@@ -444,11 +449,11 @@ fn static_case_s() -> impl Strategy<Value = statics::StaticCase> {
         [prop::bool::weighted(0.8), prop::bool::weighted(0.8), prop::bool::weighted(0.8)],
         prop::option::weighted(0.6, pred_s()),
         entry_s(),
-        (-1i64..=2, 0u8..5, any::<bool>()),
+        (-1i64..=2, 0u8..5, any::<bool>(), state_s()),
         ((key_s(), val_s()), props_s(3), prop::option::weighted(0.6, ts_s()), [via_s(), via_s()]),
     )
         .prop_map(
-            |((shape, evt, ambient, ctxt), clock, preds, flushes, when, entry, (macro_a, macro_b, by_value), (prepend, nested_ctxt, nested_clock, vias))| {
+            |((shape, evt, ambient, ctxt), clock, preds, flushes, when, entry, (macro_a, macro_b, by_value, state), (prepend, nested_ctxt, nested_clock, vias))| {
                 statics::StaticCase {
                     shape,
                     evt,
@@ -466,6 +471,7 @@ fn static_case_s() -> impl Strategy<Value = statics::StaticCase> {
                     nested_ctxt,
                     nested_clock,
                     vias,
+                    state,
                 }
             },
         )
@@ -520,6 +526,19 @@ fn main() {
         ] {
             s.require(class, n / 1000);
         }
+        // thread state of the emission (strengthening after seeded C01l): measured 35 % unwinding, of which
+        // 19 % macro / 16 % generic entry, 14 % / 21 % accepted / rejected, 11 % call-site filter, 4.7 % nested
+        for class in [
+            "thread-state:normal",
+            "thread-state:unwinding/macro-entry",
+            "thread-state:unwinding/generic-entry",
+            "thread-state:unwinding/accepted",
+            "thread-state:unwinding/rejected",
+            "thread-state:unwinding/call-site-filter",
+        ] {
+            s.require(class, n / 100);
+        }
+        s.require("thread-state:unwinding/nested-emission", n * 2 / 1000);
         s.gen("trees", n, case_s, run::check);
         s.gen("static-shapes", s.n(60_000, 600_000), static_case_s, statics::check_static);
     })
